@@ -29,6 +29,7 @@ RULE = (
 RULE += (" " + 'References by id are also spelled in upper case, braced and without dashes; a set whose references all resolve must load (a load error needs a dangling reference).')
 RULE += (" Temporal correlation rules also use extended string conditions over rule names, with and without a rules key.")
 RULE += (" merge() receives its parts as list, tuple or one-shot iterator.")
+RULE += (" Part of every outcome is the documented order of the loaded collection (a rule comes after every rule it refers to); rule sets with skip-level references between correlation rules (the top rule names the middle rule and the rule both refer to, in either order) are fixed sets.")
 ASSUMPTIONS = [
     "queries are compared as strings of the shipped TextQueryTestBackend (isolation, not semantics)",
     "rules referenced both with and without generate are not asserted (unspecified)",
@@ -128,6 +129,13 @@ def _outcome(docs, path, split, tmpdir):
         coll = _load(docs, path, split, tmpdir)
     except SigmaError as e:
         return ("load-error", type(e).__name__)
+    # documented order of a loaded collection: a rule comes after every rule it refers to (a user who converts rule by
+    # rule in that order relies on it); observed as part of the outcome, on every load path and permutation
+    pos = {id(r): k for k, r in enumerate(coll.rules)}
+    misplaced = sorted((r.title, ref.rule.title) for r in coll.rules for ref in getattr(r, "referenced_rules", [])
+                       if pos.get(id(ref.rule), -1) > pos[id(r)])
+    if misplaced:
+        return ("collection-order", misplaced[:3])
     try:
         out = TextQueryTestBackend().convert(coll, callback=cb)
     except SigmaError as e:
@@ -185,6 +193,8 @@ def check_case(case: dict) -> Outcome:
             out.label("dangling-reference")
             if base[0] != "load-error":
                 out.fail("C09:dangling-not-reported-at-load", f"dangling reference but outcome {base[:2]} for {[d['title'] for d in docs]}")
+        elif base[0] == "collection-order":
+            out.fail("C09:collection-order", f"loaded collection lists a correlation rule before a rule it refers to: {base[1]} for {[(d['title'], d.get('correlation', {}).get('rules')) for d in docs]}")
         elif base[0] == "load-error":
             out.fail(f"C09:resolvable-reference-rejected:{base[1]}", f"every reference names a rule of the set, but loading fails: {base[1:]} for {[(d['title'], d.get('correlation', {}).get('rules')) for d in docs]}")
         perms = case.get("perms", "all")
@@ -256,6 +266,10 @@ def fixed_sets():
     yield [r[0], corr_rule(0, ["r0"]), corr_rule(1, ["r0"], generate=True)]
     yield [r[0], r[1], corr_rule(0, ["r0", "missing"], "temporal")]
     yield [r[0], r[1], r[2], r[3]]
+    # skip-level references: the top rule names the middle correlation rule before / after the one both refer to
+    yield [corr_rule(2, ["c1", "c0"], "temporal"), corr_rule(1, ["c0", "r0"], "temporal"), corr_rule(0, ["r0", "r1"], "temporal"), r[0], r[1]]
+    yield [corr_rule(2, ["c0", "c1"], "temporal"), corr_rule(1, ["r1", "c0"], "temporal"), corr_rule(0, ["r0"]), r[0], r[1]]
+    yield [corr_rule(3, ["c2", "c1", "c0"], "temporal"), corr_rule(2, ["c1", "c0"], "temporal"), corr_rule(1, ["c0"]), corr_rule(0, ["r0"]), r[0]]
     # names that differ only in blanks at the edges or in letter case are different names
     yield [r[0], dict(r[1], name="r0 "), corr_rule(0, ["r0 "]), corr_rule(1, ["r0"], generate=True)]
     yield [r[0], dict(r[1], name="R0"), dict(r[2], name=" r0"), corr_rule(0, ["R0", " r0"], "temporal")]
